@@ -96,6 +96,21 @@ func (propC04) Gen(seed uint64, tier string, idx int) *Plan {
 		}
 		p.Endpoints = append(p.Endpoints, ep)
 	}
+	// dial-level failures carry no request identity, so overlapping requests are only generated when
+	// every failure kind of the cell is visible as an exchange (attribution stays exact)
+	twin := r.Chance(500)
+	for _, k := range kinds[:nEp] {
+		if k == "refuse" || k == "blackhole" {
+			twin = false
+		}
+	}
+	if twin {
+		for i := range p.Endpoints {
+			if kinds[i] == "ok" {
+				p.Endpoints[i].Default.PreDelay = pickS(r, []time.Duration{0, 200 * time.Millisecond, time.Second})
+			}
+		}
+	}
 	// history ops: sequential, 200 ms apart
 	id := 1
 	for j := 0; j < hist+r.Pick(2); j++ {
@@ -115,6 +130,13 @@ func (propC04) Gen(seed uint64, tier string, idx int) *Plan {
 		p.Ops = append(p.Ops, ClientOp{ID: id, At: at, Method: "POST", Path: "/olla/proxy/v1/chat/completions", Query: "q=" + fmt.Sprint(id),
 			Headers: [][2]string{{"X-Custom-Header", fmt.Sprintf("c%d", id)}}, Body: body, Deadline: 20 * time.Second, Expect: "main"})
 		id++
+		if j == 2 && twin {
+			// a second request arrives while the first one after the breaker time-out is still in flight
+			// on a slowly answering endpoint: it must be served too (by that endpoint or by another candidate)
+			p.Ops = append(p.Ops, ClientOp{ID: id, At: at + r.Dur(time.Millisecond, 40*time.Millisecond), Method: "POST", Path: "/olla/proxy/v1/chat/completions", Query: "q=" + fmt.Sprint(id),
+				Headers: [][2]string{{"X-Custom-Header", fmt.Sprintf("c%d", id)}}, Body: BodySpec{Kind: "json", N: 150, Model: "m1"}, Deadline: 20 * time.Second, Expect: "main"})
+			id++
+		}
 	}
 	p.Deadline = 120 * time.Second
 	p.Settle = 100 * time.Millisecond
